@@ -483,6 +483,13 @@ where
     let mut visited: FastHashSet<CellKey> = FastHashSet::default();
 
     for step in 0..MAX_STEPS {
+        #[cfg(delaunay_verif)]
+        {
+            crate::verif::tick::tick("locate.walk");
+            if step >= crate::verif::knob::get("locate.max_steps", MAX_STEPS) {
+                break;
+            }
+        }
         stats.walk_steps = step + 1;
 
         if !visited.insert(current_cell) {
@@ -541,6 +548,8 @@ where
     V: DataType,
 {
     for (cell_key, cell) in tds.cells() {
+        #[cfg(delaunay_verif)]
+        crate::verif::tick::tick("locate.scan");
         let mut found_outside_facet = false;
         let facet_count = cell.number_of_vertices();
 
@@ -754,6 +763,8 @@ where
     let mut visited = CellSecondaryMap::new();
 
     while let Some(cell_key) = queue.pop() {
+        #[cfg(delaunay_verif)]
+        crate::verif::tick::tick("conflict.bfs");
         // Skip if already visited
         if visited.contains_key(cell_key) {
             continue;
